@@ -11,7 +11,6 @@ from vf import doc, explore, harness, schema as S, schema_rewrite as SR, seeds
 from vf.data import Scenario
 from vf.model import introspect as I, schema_validate as SV
 
-from tartiflette.schema.registry import SchemaRegistry
 
 PROPERTY = "C11"
 LEVEL = "model_checking"
@@ -234,7 +233,7 @@ def check_model(schema, trail, ways, out, label):
                                             schema, way, extend))
         finally:
             shutil.rmtree(tmp, ignore_errors=True)
-            SchemaRegistry._schemas.pop(name, None)
+            harness.forget(name)
 
 
 def _attr_sig(attr):
@@ -336,7 +335,7 @@ def _extension_layout(i, out):
                                             "extension layout %s [%s]: %s %s: %r\n%s" % (label, way, el, attr, det, sdl), schema, way, True))
         finally:
             shutil.rmtree(tmp, ignore_errors=True)
-            SchemaRegistry._schemas.pop(name, None)
+            harness.forget(name)
     out["samples"].append({"extension_layout": label, "sdl": sdl})
 
 
